@@ -199,7 +199,7 @@ bool CellBounds(const vx::Cell& cell, int tier, vx::Bounds& b) {
   } else {
     b.P = (tier == 0 || k == 2) ? 1 : 2;
   }
-  b.S = 0;
+  b.S = 1;
   b.T = 0;
   return true;
 }
